@@ -253,6 +253,54 @@ fn check_reader(c: i32) -> Result<(), Fail> {
     }
 }
 
+/// Encoding direction through the writer: the headers of a file holding shapes of type t carry t's code, whether or
+/// not finalize() was called before the first write.
+fn check_writer_headers(t: Ty) -> Result<(), Fail> {
+    struct W(Ty);
+    impl KindFn for W {
+        type Out = Result<(), Fail>;
+        fn call<K: Kind>(self) -> Self::Out
+        where
+            Error: From<<K as TryFrom<Shape>>::Error>,
+        {
+            let shape = K::build(&minimal_geom(self.0), Ctor::Plain);
+            for fin_first in [false, true] {
+                let (shp, shx) = (vlib::io::Dest::new(), vlib::io::Dest::new());
+                {
+                    let mut w = shapefile::ShapeWriter::with_shx(shp.clone(), shx.clone());
+                    if fin_first {
+                        w.finalize().map_err(|e| Fail::new("write-error", format!("{:?}", e)))?;
+                    }
+                    w.write_shape(&shape).map_err(|e| Fail::new("write-error", format!("{:?}", e)))?;
+                }
+                for (name, bytes) in [(".shp", shp.bytes()), (".shx", shx.bytes())] {
+                    if bytes.len() < 100 {
+                        return Err(Fail::new("header-type", format!("{} of a {} file has {} bytes", name, self.0.name(), bytes.len())));
+                    }
+                    let code = i32::from_le_bytes(bytes[32..36].try_into().unwrap());
+                    if code != self.0.code() {
+                        return Err(Fail::new(
+                            "header-type",
+                            format!("{} header of a file holding a {} carries code {} (expected {}){}", name, self.0.name(), code, self.0.code(), if fin_first { " after finalize() before the first write" } else { "" }),
+                        ));
+                    }
+                }
+                let mut r = ShapeReader::with_shx(Cursor::new(shp.bytes()), Cursor::new(shx.bytes())).map_err(|e| Fail::new("open-error", format!("{:?}", e)))?;
+                if r.header().shape_type as i32 != self.0.code() {
+                    return Err(Fail::new("header-type", format!("a written {} file reads back with header type {:?}", self.0.name(), r.header().shape_type)));
+                }
+                let first = r.iter_shapes().next();
+                match first {
+                    Some(Ok(s)) if s.shapetype() as i32 == self.0.code() => {}
+                    other => return Err(Fail::new("record-type", format!("a written {} file: first shape {:?}", self.0.name(), other.map(|r| r.map(|s| s.shapetype()))))),
+                }
+            }
+            Ok(())
+        }
+    }
+    dispatch(t, W(t))
+}
+
 fn interesting_codes() -> Vec<i32> {
     let mut s: HashSet<i32> = HashSet::new();
     for c in VALID_CODES {
@@ -287,7 +335,11 @@ fn check_all_paths(c: i32) -> Result<(), Fail> {
     check_bare_record(c)?;
     check_typed_record(&contents, &mut scratch, c)?;
     check_header_variants(c)?;
-    check_reader(c)
+    check_reader(c)?;
+    match Ty::from_code(c) {
+        Some(t) if t != Ty::Null => check_writer_headers(t),
+        _ => Ok(()),
+    }
 }
 
 fn valid_contents() -> BTreeMap<i32, Vec<u8>> {
@@ -400,7 +452,10 @@ impl SubCheck for CodeTable {
         if rep.violation.is_none() {
             for &c in &interesting {
                 rep.inner_evaluations += 7 + 14;
-                if let Err(f) = check_reader(c).and_then(|_| check_header_variants(c)) {
+                if let Err(f) = check_reader(c).and_then(|_| check_header_variants(c)).and_then(|_| match Ty::from_code(c) {
+                    Some(t) if t != Ty::Null => check_writer_headers(t),
+                    _ => Ok(()),
+                }) {
                     rep.violation = Some(Violation {
                         key: f.key,
                         msg: f.msg,
